@@ -1119,7 +1119,7 @@ def dataframe_to_tree_by_relation(
 
     # Infer root node
     root_names = set(data[data[parent_col].isnull()][child_col])
-    root_names.update(set(data[parent_col]) - set(data[child_col]) - {None})
+    root_names.update(set(data[parent_col].dropna()) - set(data[child_col]))
     if len(root_names) != 1:
         raise ValueError(
             f"Unable to determine root node\n"
